@@ -32,6 +32,36 @@ class Draws:
         return x
 
 
+ASSUMPTIONS.append('"bytes held" in the byte-limit oracle is an account kept at the port\'s boundary (sizes accepted by `put` minus sizes handed to `out`), '
+                   'not the port\'s own `byte_size`; a refusal is what `packets_dropped` counts')
+
+
+class Ledger:
+    """an account kept at the port's boundary, independent of the port's own figures: bytes of the packets it accepted and
+    has not yet handed to `out` (waiting plus in transmission), noted before every put together with the decision"""
+
+    def __init__(self, run):
+        self.held = 0
+        self.puts = []            # (instant, packet id, size, bytes held before the put, refused?)
+        port = run.dev
+        inner_put, inner_out, led = port.put, port.out, self
+
+        def put(packet):
+            d0, h = port.packets_dropped, led.held
+            inner_put(packet)
+            refused = port.packets_dropped > d0
+            led.puts.append((run.env.now, packet.packet_id, packet.size, h, refused))
+            if not refused:
+                led.held += packet.size
+
+        class Out:
+            def put(self, packet):
+                led.held -= packet.size
+                inner_out.put(packet)
+
+        port.put, port.out = put, Out()
+
+
 def snap_port(run):
     p = run.dev
     return (f'bs={p.byte_size} rc={p.packets_received} dr={p.packets_dropped} busy={p.busy} bsz={p.busy_packet_size} '
@@ -64,6 +94,25 @@ def gen_case(rng, cid):
             burst = [(rng.randrange(3), rng.choice(sizes)) for _ in range(rng.choice([1, 1, 1, 2, 3, 5]))]
             script.append((d, burst))
         c['sources'].append(script)
+    if mode == 'bytes' and rng.random() < 0.5:
+        # exact fills: every packet has one fixed size and `qlimit` is a multiple of it, so bursts land on the limit exactly
+        # (bytes held + size == qlimit: still admitted) before they overflow it; now and then a packet as large as the whole
+        # buffer arrives after the port had time to drain (idle port: held 0 + size == qlimit)
+        unit = rng.choice(sizes)
+        k = rng.choice([1, 1, 2, 3, 4])
+        c['qlimit'] = unit * k
+        c['fill'] = {'unit': unit, 'k': k}
+        drain = (c['qlimit'] * 8 / rate if rate > 0 else 0) * 2 + 1
+        c['sources'] = []
+        for _ in range(rng.randint(1, 2)):
+            script = []
+            for _ in range(rng.randint(1, 7)):
+                if rng.random() < 0.25:
+                    script.append((drain, [(rng.randrange(3), c['qlimit'])] + [(rng.randrange(3), unit)] * rng.choice([0, 0, 1])))
+                else:
+                    d = rng.choice([0, 0, 1, 2, 5, 0.5, drain, unit * 8 / rate if rate > 0 else 1])
+                    script.append((d, [(rng.randrange(3), unit)] * rng.choice([1, k, k, k + 1, k + 2])))
+            c['sources'].append(script)
     c['own_ids'] = rng.random() < 0.3          # sources number their packets independently: ids collide on the port
     c['monitor'] = None
     if rng.random() < 0.4:
@@ -91,6 +140,7 @@ def run_impl(c):
     else:
         port = Port(env, c['rate'], None if c['mode'] == 'none' else c['qlimit'], c['mode'] == 'bytes', eid)
     run = FifoRun(env, port, snap_port, draws)
+    run.ledger = Ledger(run)
     counter = [0]
     for script in c['sources']:
         env.process(source(env, run, script, [0] if c.get('own_ids') else counter, 3))
@@ -149,6 +199,20 @@ def oracle(c, run):
         fails.append({'what': f'byte_size = {p.byte_size} with nothing held', 'signature': 'port-bytes-held'})
     if c['hasid'] and c['mode'] != 'red' and run.stamps != p.packets_received:
         fails.append({'what': f'{p.packets_received} packets received, {run.stamps} stamped with their arrival time under the element id', 'signature': 'port-perhop'})
+    # "With a byte limit a packet is refused iff the bytes held (waiting plus in transmission) plus its size would exceed
+    # qlimit" - both directions, at the boundary too (held + size == qlimit is admitted); "never when qlimit is None".
+    # The bytes held are the ledger's (accepted minus handed to `out`), not the port's own `byte_size`.
+    led = getattr(run, 'ledger', None)
+    if led is not None and c['mode'] in ('bytes', 'none'):
+        for t, pid, size, held, refused in led.puts:
+            want = c['mode'] == 'bytes' and held + size > c['qlimit']
+            if want != refused:
+                lim = f'byte limit {c["qlimit"]}' if c['mode'] == 'bytes' else 'no limit'
+                fails.append({'what': f'{lim}: packet {pid} of {size} bytes arrived at {t!r} with {held} bytes held (waiting plus in transmission), '
+                                      f'{held} + {size} {">" if held + size > (c["qlimit"] if c["mode"] == "bytes" else INF) else "<="} '
+                                      f'{c["qlimit"] if c["mode"] == "bytes" else "inf"}: it was {"refused" if refused else "admitted"}',
+                              'signature': 'port-drop-bytes-rule'})
+                break
     # tail-drop decisions, recomputed from the arrival/departure history
     if c['mode'] in ('none', 'bytes', 'packets'):
         ev = sorted([(t, 1, i, 'a', q) for i, (t, q) in enumerate(run.arrivals)] +
@@ -338,6 +402,9 @@ def run(ctx):
             hist[l.split(' ')[0]] += 1
         hist['mode:' + c['mode']] += 1
         hist['drops'] += len(r.drops)
+        if c['mode'] == 'bytes':
+            hist['puts_filling_byte_limit_exactly'] += sum(1 for x in r.ledger.puts if x[3] + x[2] == c['qlimit'])
+            hist['buffer_sized_packet_at_idle_port'] += sum(1 for x in r.ledger.puts if x[3] == 0 and x[2] == c['qlimit'])
         key = json.dumps({k: v for k, v in c.items() if k != 'cid'}, sort_keys=True)
         nt = len(r.drops) > 0 or any(x[0] == y[0] for x, y in zip(r.arrivals[1:], r.departures))
         if nt and key not in distinct:
